@@ -773,6 +773,11 @@ PrecRuleCase(n) ==
   LET idx == (Seed0 * 71 + n * Stride) % NAspRules
       r == AspRule(idx)
   IN [id |-> "pr" \o ToString(idx), prog |-> r.text, exprule |-> [head |-> r.head, body |-> r.body]]
+PrecEntryCase(n) ==
+  LET idx == n % (NSpecEntries + NUgEntries)
+      isSpec == idx < NSpecEntries
+      e == IF isSpec THEN SpecEntry(idx) ELSE UgEntry(idx - NSpecEntries)
+  IN [id |-> "pe" \o ToString(idx), as |-> IF isSpec THEN "specification" ELSE "user-guide", text |-> e.text, exp |-> <<e.tree>>]
 PrecFolCase(n) ==
   LET idx == (Seed0 * 67 + n * Stride) % (NFolForms + NFolCmps)
       f == IF idx < NFolForms THEN FolForm(idx) ELSE FolCmp(idx - NFolForms)
@@ -783,6 +788,7 @@ Case(n, sd) ==
     [] Mode = "precasp" -> PrecAspCase(n)
     [] Mode = "precfol" -> PrecFolCase(n)
     [] Mode = "precrule" -> PrecRuleCase(n)
+    [] Mode = "precentry" -> PrecEntryCase(n)
     [] Mode = "outline" -> OutlineCase(n, sd)
     [] Mode = "aspsyntax" -> AspSyntaxCase(n, sd)
     [] Mode = "folsyntax" -> FolSyntaxCase(n, sd)
